@@ -271,3 +271,22 @@ M('C08', 'c08-unprocessed-truncates', [(OUT, "' |  ' + ' '.join(map(lambda m: st
 M('C08', 'c08-runtimeerror-in-listener', [(CTL, "        self.all_messages.append(message)\n", "        self.all_messages.append(message)\n        if message.name == '':\n            raise RuntimeError('empty message name')\n")], 'C08.2')
 M('C08', 'c08-skip-after-error-return', [(PARSE, "                self.out.error(e)\n                parse = False", "                self.out.error(e)\n                return")], 'C08.3')
 V('C08', 'c08v-not-line', [(PARSE, "            if line == '':\n                break", "            if not line:\n                break")])
+
+# ---- C09 -----------------------------------------------------------------------------------------
+EXT = 'backends/gdb_plugin/extract.py'
+M('C09', 'c09-cursor-clobbered-again', [(EXT, "for elem_index in range(size // int_type.sizeof):\n                    elem = value['data'].cast(int_type.pointer())[elem_index]", "for i in range(size // int_type.sizeof):\n                    elem = value['data'].cast(int_type.pointer())[i]")], 'C09.1')
+M('C09', 'c09-no-increment', [(EXT, "                raise RuntimeError('Invalid type code ' + c)\n            i += 1\n", "                raise RuntimeError('Invalid type code ' + c)\n")], 'C09.1')
+M('C09', 'c09-increment-for-all-chars', [(EXT, "                raise RuntimeError('Invalid type code ' + c)\n            i += 1\n", "                raise RuntimeError('Invalid type code ' + c)\n        i += 1\n")], 'C09.1')
+M('C09', 'c09-drop-code-h', [(EXT, "['i', 'u', 'f', 's', 'o', 'n', 'a', 'h']", "['i', 'u', 'f', 's', 'o', 'n', 'a']")], 'C09.2')
+M('C09', 'c09-fd-as-int', [(EXT, "args.append(wl.Arg.Fd(int(value)))", "args.append(wl.Arg.Int(int(value)))")], 'C09.3')
+M('C09', 'c09-new-id-not-new', [(EXT, "args.append(wl.Arg.Object(wl.UnresolvedObject(arg_id, arg_type_name), True))", "args.append(wl.Arg.Object(wl.UnresolvedObject(arg_id, arg_type_name), False))")], 'C09.3')
+M('C09', 'c09-sent-received-swapped', [(EXT, "message = extract_message(closure, object, True, False)", "message = extract_message(closure, object, False, False)")], 'C09.4')
+M('C09', 'c09-fixed-formula-const', [(EXT, "((1023LL + 44LL) << 52)", "((1023LL + 43LL) << 52)")], 'C09.3')
+M('C09', 'c09-types-wrong-index', [(EXT, "            elif c == 'o':\n                arg_type = message_types[i]", "            elif c == 'o':\n                arg_type = message_types[len(args)]")], 'C09.1')
+M('C09', 'c09-union-member-fixed', [(EXT, "            value = closure_args[i][c]", "            value = closure_args[i]['i'] if c == 'u' else closure_args[i][c]")], 'C09.2')
+M('C09', 'c09-bp-registry-swapped', [(PLG, "WlClosureCallBreakpoint(self, 'serialize_closure', extract.sent_message)", "WlClosureCallBreakpoint(self, 'serialize_closure', extract.received_message)")], 'C09.4')
+M('C09', 'c09-string-unguarded', [(EXT, "                if _is_null(value):\n                    str_val = '[null string]'\n                else:\n                    str_val = value.string()", "                str_val = value.string()")], 'C09.3')
+M('C09', 'c09-name-from-signature', [(EXT, "    message_name = _fast_access(closure_message, 'wl_message.name').string()", "    message_name = _fast_access(closure_message, 'wl_message.signature').string()")], 'C09.4')
+M('C09', 'c09-args-reversed', [(EXT, "return wl.Message(time_now(), object, is_sending, message_name, tuple(args))", "return wl.Message(time_now(), object, is_sending, message_name, tuple(reversed(args)))")], 'C09.4')
+M('C09', 'c09-sender-id-from-target', [(EXT, "    object_id = int(_fast_access(closure, 'wl_closure.sender_id'))\n    object = wl.UnresolvedObject(object_id, None)", "    object_id = int(_fast_access(closure, 'wl_closure.opcode'))\n    object = wl.UnresolvedObject(object_id, None)")], 'C09.4')
+V('C09', 'c09v-cursor-renamed', [(EXT, "    i = 0\n    for c in signiture:", "    i = 0\n    assert i == 0\n    for c in signiture:")])
